@@ -77,7 +77,7 @@ func c04SliceProg(objList bool, n int, objLit bool, s, e, t bnd, colon2 bool, vi
 	return &Prog{Scripts: map[string][]*rt.Node{"s.p": stmts}, Main: "s.p", Point: PointSpec{Meas: "m"}}
 }
 
-func c04Report(w *run.Worker, part string, p *Prog, v Verdict, keyExtra string) {
+func c04Report(w *run.Worker, d dctx, part string, p *Prog, v Verdict, keyExtra string) {
 	w.Outcome(v.Outcome)
 	if v.Skipped != "" {
 		w.Note("unspecified_cells_skipped", 1)
@@ -87,7 +87,7 @@ func c04Report(w *run.Worker, part string, p *Prog, v Verdict, keyExtra string) 
 		return
 	}
 	src := p.Sources()[p.Main]
-	key := "C04:" + part + ":" + v.Key
+	key := d.id + ":" + part + ":" + v.Key
 	if v.Key == "panic" {
 		key += ":" + panicClass(v.Real.Panic)
 	}
@@ -118,7 +118,7 @@ func panicClass(msg string) string {
 	return strings.Join(f, "-")
 }
 
-func c04Slices(w *run.Worker) {
+func c04Slices(w *run.Worker, d dctx) {
 	r := int64(8)
 	maxLen := 5
 	if w.Thorough {
@@ -145,12 +145,12 @@ func c04Slices(w *run.Worker) {
 									}
 									p := c04SliceProg(objList, n, objLit, s, e, t, c2, viaVar)
 									w.Eval()
-									v := Differential(p)
+									v := d.diff(p)
 									extra := ""
 									if !v.OK && v.Key != "panic" {
 										extra = map[bool]string{true: "list", false: "string"}[objList]
 									}
-									c04Report(w, "slice", p, v, extra)
+									c04Report(w, d, "slice", p, v, extra)
 									if w.WantSample() && n == 3 && !s.omit && s.v == -2 && !t.omit && t.v == -1 {
 										w.Sample(map[string]any{"program": p.Sources()["s.p"], "outcome": v.Outcome})
 									}
@@ -273,7 +273,7 @@ func c04Keys() []func() *rt.Node {
 	}
 }
 
-func c04Paths(w *run.Worker) {
+func c04Paths(w *run.Worker, d dctx) {
 	shapes := c04Shapes()
 	keys := c04Keys()
 	maxDepth := 3
@@ -306,8 +306,8 @@ func c04Paths(w *run.Worker) {
 					}
 					p := &Prog{Scripts: map[string][]*rt.Node{"s.p": stmts}, Main: "s.p", Point: PointSpec{Meas: "m"}}
 					w.Eval()
-					v := Differential(p)
-					c04Report(w, []string{"index-read", "index-write", "index-compound"}[mode], p, v, "")
+					v := d.diff(p)
+					c04Report(w, d, []string{"index-read", "index-write", "index-compound"}[mode], p, v, "")
 					if w.WantSample() && si == 3 && depth == 3 && mode == 1 && v.OK && v.Real.Err == nil {
 						w.Sample(map[string]any{"program": p.Sources()["s.p"], "outcome": v.Outcome})
 					}
@@ -349,8 +349,11 @@ func c04AliasOps() []func() *rt.Node {
 	}
 }
 
-func c04Alias(w *run.Worker) {
+func c04Alias(w *run.Worker, d dctx) {
 	ops := c04AliasOps()
+	if d.v2 {
+		ops = append(append([]func() *rt.Node{}, ops[:10]...), ops[11]) // no add_key / len in v2
+	}
 	maxLen := 4
 	I, S, Id := rt.Int, rt.Str, rt.Id
 	for n := 1; n <= maxLen; n++ {
@@ -364,11 +367,16 @@ func c04Alias(w *run.Worker) {
 				for _, i := range idx {
 					stmts = append(stmts, ops[i]())
 				}
-				stmts = append(stmts, rt.Call("p", Id("a"), Id("b"), Id("c"), rt.Call("get_key", Id("snap"))))
+				if d.v2 {
+					stmts = append([]*rt.Node{rt.Assign("=", Id("b"), rt.Nil()), rt.Assign("=", Id("c"), rt.Nil())}, stmts...)
+					stmts = append(stmts, rt.Call("p", Id("a"), Id("b"), Id("c")))
+				} else {
+					stmts = append(stmts, rt.Call("p", Id("a"), Id("b"), Id("c"), rt.Call("get_key", Id("snap"))))
+				}
 				p := &Prog{Scripts: map[string][]*rt.Node{"s.p": stmts}, Main: "s.p", Point: PointSpec{Meas: "m"}}
 				w.Eval()
-				v := Differential(p)
-				c04Report(w, "alias", p, v, "")
+				v := d.diff(p)
+				c04Report(w, d, "alias", p, v, "")
 				if w.WantSample() && n == 4 && idx[0] == 1 && idx[1] == 6 && idx[2] == 10 {
 					w.Sample(map[string]any{"program": p.Sources()["s.p"], "outcome": v.Outcome})
 				}
@@ -388,7 +396,7 @@ func c04Alias(w *run.Worker) {
 	}
 }
 
-func c04JSON(w *run.Worker) {
+func c04JSON(w *run.Worker, d dctx) {
 	I, S, Id := rt.Int, rt.Str, rt.Id
 	texts := []string{`[1,2,3]`, `{"a":1,"b":[true,null,"x"]}`, `"str"`, `12`, `1.5`, `null`, `true`, `[[1,[2,[3]]]]`, `{"a":{"b":{"c":1}}}`,
 		`[`, `{"a":}`, ``, `[1,2,`, `{"a":1}{"b":2}`, ` [1] `, `1e400`, `"\ud800"`, `[1,2,3`, `nul`}
@@ -410,8 +418,8 @@ func c04JSON(w *run.Worker) {
 			}
 			p := &Prog{Scripts: map[string][]*rt.Node{"s.p": stmts}, Main: "s.p", Point: PointSpec{Meas: "m"}}
 			w.Eval()
-			v := Differential(p)
-			c04Report(w, "json", p, v, "")
+			v := d.diff(p)
+			c04Report(w, d, "json", p, v, "")
 		}
 	}
 	// collection literal -> add_key -> load_json round trip of the shapes
@@ -423,17 +431,18 @@ func c04JSON(w *run.Worker) {
 			rt.Call("p", rt.Call("get_key", Id("k")), rt.Call("len", Id("a")))}
 		p := &Prog{Scripts: map[string][]*rt.Node{"s.p": stmts}, Main: "s.p", Point: PointSpec{Meas: "m"}}
 		w.Eval()
-		v := Differential(p)
-		c04Report(w, "json", p, v, "")
+		v := d.diff(p)
+		c04Report(w, d, "json", p, v, "")
 	}
 }
 
 func c04Run(w *run.Worker) {
-	c04Paths(w)
-	c04Alias(w)
-	c04JSON(w)
+	d := dctx{id: "C04", diff: Differential}
+	c04Paths(w, d)
+	c04Alias(w, d)
+	c04JSON(w, d)
 	c04NonASCII(w)
-	c04Slices(w)
+	c04Slices(w, d)
 }
 
 func c04Replay(raw json.RawMessage) (bool, string) {
